@@ -149,8 +149,15 @@ inline std::istream& from_stream(std::istream& is, const char* fmt, std::chrono:
     is.setstate(std::ios::failbit);
     return is;
   }
+  // the day count times the nanoseconds of a day may leave the 64-bit range although the instant itself fits (the first day of the representable range):
+  // the sum is formed in 128 bits; an instant outside the range is a parse failure
+  __int128 total = static_cast<__int128>(d) * 86400LL * 1000000000LL + ns;
+  if (total > static_cast<__int128>(INT64_MAX) || total < static_cast<__int128>(INT64_MIN)) {
+    is.setstate(std::ios::failbit);
+    return is;
+  }
   v = std::chrono::time_point<Clock, Duration>(
-      std::chrono::duration_cast<Duration>(std::chrono::nanoseconds(d * 86400LL * 1000000000LL + ns)));
+      std::chrono::duration_cast<Duration>(std::chrono::nanoseconds(static_cast<int64_t>(total))));
   return is;
 }
 
